@@ -56,10 +56,16 @@ var migratedExtensionKeys = []cbc.Key{
 }
 
 func normalizeItem(item *org.Item) {
+	if item == nil {
+		return
+	}
 	// 2023-08-25: Migrate identities to extensions
 	// Pending removal after migrations completed.
 	idents := make([]*org.Identity, 0)
 	for _, v := range item.Identities {
+		if v == nil {
+			continue
+		}
 		if v.Key.In(migratedExtensionKeys...) {
 			if item.Ext == nil {
 				item.Ext = make(tax.Extensions)
